@@ -1,5 +1,5 @@
 //! C18: file commands against FileTree.tla (cases with externally constructed trees; random histories).
-use crate::c02::quote_arg;
+use crate::c02::lit_arg as quote_arg;
 use crate::common::*;
 use duckscript::types::runtime::Context;
 use serde_json::{json, Value};
@@ -131,13 +131,18 @@ pub fn replay(args: &[String]) {
     s.finish();
 }
 
-const POOL: &[&str] = &["a.txt", "d", "d/b.txt", "d/s p", "d/s p/c é.txt", "n.txt"];
+const POOL1: &[&str] = &["a.txt", "d", "d/b.txt", "d/s p", "d/s p/c é.txt", "n.txt"];
+const POOL2: &[&str] = &["a.txt", "n.txt", "v1.2", "v1.2/a.txt", "d", "d/a.txt", "d/n.txt"];
 pub fn record(args: &[String]) {
     let seed: u64 = args[0].parse().unwrap();
     let nhist: usize = args[1].parse().unwrap();
     let len: usize = args[2].parse().unwrap();
     let mut out = Out::create(&args[3]);
     let root = PathBuf::from(&args[4]).join("c18_record");
+    let pool2 = args.get(5).map(|x| x == "2").unwrap_or(false);
+    #[allow(non_snake_case)]
+    let POOL: &[&str] = if pool2 { POOL2 } else { POOL1 };
+    let sources: &[&str] = if pool2 { &["a.txt", "n.txt"] } else { &["a.txt", "d/b.txt"] };
     let base = sdk_context();
     let mut r = Rng::new(seed);
     let mut s = Summary::new();
@@ -168,8 +173,8 @@ pub fn record(args: &[String]) {
                 12 => ("readfile", vec![p]),
                 13 => (*r.pick(&["is_path_exists", "is_file", "is_dir", "get_file_size", "read_binary", "basename", "dirname"]), vec![p]),
                 14 => ("ls", vec![p]),
-                15..=17 => ("cp", vec![r.pick(&["a.txt", "d/b.txt"]).to_string(), p]),
-                _ => ("mv", vec![r.pick(&["a.txt", "d/b.txt"]).to_string(), p]),
+                15..=17 => ("cp", vec![r.pick(sources).to_string(), p]),
+                _ => ("mv", vec![r.pick(sources).to_string(), p]),
             };
             let res = run_op(&base, &root, cmd, &a);
             let mut got = BTreeMap::new();
